@@ -256,8 +256,8 @@ def far_vector(name, ns, no):
             p[s % no] = 2.0
             p[(s + 1) % no] += -1.0
         elif name == "negative_big":
-            p[0] = -50.0
-            p[no - 1] += 51.0
+            p[0] = -5.0
+            p[no - 1] += 6.0
         elif name == "alternating":
             p[:] = [3.0 if (k + s) % 2 == 0 else -2.5 for k in range(no)]
         elif name == "one_schedule_off":
@@ -309,7 +309,7 @@ def chunk_size(chunk, T=None):
 
 # ---------------------------------------------------------------- estimator drivers
 
-OPTSETS = ("default", "var", "absloss2", "projgrad", "tuned", "start", "start_plain", "eq_only", "ineq_only")
+OPTSETS = ("default", "default100", "var", "absloss2", "projgrad", "tuned", "start", "start_plain", "eq_only", "ineq_only")
 
 
 def algo_option(algo, optset, order, T, seed):
@@ -325,6 +325,8 @@ def algo_option(algo, optset, order, T, seed):
     info = {"eps": 1e-14, "eq": True, "ineq": True, "capped": False, "start": None}
     if optset == "default":
         pass
+    elif optset == "default100":
+        kw.update(max_iteration_optimization=100)      # momentum oscillates for a long time on some data: bound the cost of the bulk runs
     elif optset == "var":
         kw.update(mode_stopping_criterion_gradient_descent="sum_absolute_difference_variable", eps=1e-9)
         if algo != "pgdb":
